@@ -145,12 +145,17 @@ class Rec:
                     budget_skipped=self.budget_skipped)
 
 
+TRACE = None  # list of {subcheck, case} in evaluation order while a shard is re-run to recover a history-dependent failure
+
+
 def evaluate(sub, case, rec=None, record=True):
     """Run the body on one case.  Returns None (held / skipped) or a tuple
     (kind, message) with kind in {'violation', 'harness', 'known'}."""
     ctx = Ctx()
     if rec is not None:
         rec.evaluations += 1
+    if TRACE is not None:
+        TRACE.append(dict(subcheck=sub.name, case=json.loads(json.dumps(case, default=str))))
     try:
         sub.body(case, ctx)
     except Skip as s:
@@ -230,7 +235,7 @@ def _hyp_settings(n, tier, steps=None):
 
     kw = dict(max_examples=n, database=None, deadline=None, derandomize=False, report_multiple_bugs=False,
               suppress_health_check=[HealthCheck.too_slow, HealthCheck.data_too_large, HealthCheck.large_base_example],
-              phases=[Phase.generate, Phase.shrink], verbosity=Verbosity.quiet)
+              phases=[Phase.generate] if TRACE is not None else [Phase.generate, Phase.shrink], verbosity=Verbosity.quiet)
     if steps is not None:
         kw["stateful_step_count"] = steps
     return settings(**kw)
@@ -254,8 +259,8 @@ def _run_hypothesis(sub, tier, seed, rec, budget_s):
         if state["fail"] is None and now - state["t0"] > budget_s:
             rec.budget_skipped += 1
             return
-        if state["fail"] is not None and now - state["t_fail"] > SHRINK_CAP[tier]:
-            # shrinking budget used up: keep the best failure found so far
+        if state["fail"] is not None and (TRACE is not None or now - state["t_fail"] > SHRINK_CAP[tier]):
+            # shrinking budget used up (or a trace run, which stops at the first failure): keep the best failure found so far
             raise StopShrinking()
         res = evaluate(sub, case, rec, record=state["fail"] is None)
         if res is None or res[0] == "known":
@@ -288,7 +293,7 @@ def _run_machine(sub, tier, seed, rec, budget_s):
         if state["fail"] is None and now - state["t0"] > budget_s:
             rec.budget_skipped += 1
             return
-        if state["fail"] is not None and now - state["t_fail"] > SHRINK_CAP[tier]:
+        if state["fail"] is not None and (TRACE is not None or now - state["t_fail"] > SHRINK_CAP[tier]):
             raise StopShrinking()
         if final:
             res = evaluate(sub, history_case, rec, record=state["fail"] is None)
@@ -315,14 +320,16 @@ def _run_machine(sub, tier, seed, rec, budget_s):
 # --------------------------------------------------------------------------
 # the driver
 # --------------------------------------------------------------------------
-def _write_replay(check_id, sub_name, case, message, seed, kind):
+def _write_replay(check_id, sub_name, case, message, seed, kind, history=None):
     d = os.path.join(OUT, "replays", "found")
     os.makedirs(d, exist_ok=True)
     h = case_hash(case)[:8]
     path = os.path.join(d, "%s-%s-%s.json" % (check_id, sub_name, h))
     with open(path, "w") as f:
-        json.dump(dict(property=check_id, subcheck=sub_name, case=case, message=message, seed=seed, kind=kind), f,
-                  indent=1, default=str)
+        doc = dict(property=check_id, subcheck=sub_name, case=case, message=message, seed=seed, kind=kind)
+        if history is not None:
+            doc["history"] = history
+        json.dump(doc, f, indent=1, default=str)
     return os.path.relpath(path, OUT) if OUT == VERIF else path
 
 
@@ -338,7 +345,95 @@ def replay_file(mod, path):
     sub = [s for s in mod.SUBCHECKS if s.name == data["subcheck"]]
     if not sub:
         return ("harness", "unknown subcheck %s in %s" % (data["subcheck"], path))
+    by_name = {s.name: s for s in mod.SUBCHECKS}
+    for h in data.get("history", []):
+        # earlier calls of a history-dependent failure: made for their side effects on verde's state only
+        if h["subcheck"] in by_name:
+            evaluate(by_name[h["subcheck"]], h["case"])
     return evaluate(sub[0], data["case"])
+
+
+def _driver_prefix(mod, check_id, per_sub=None):
+    """The plain evaluations the driver makes before the generated search (regression replays, canaries); part of every
+    worker's process history because the workers are forked afterwards."""
+    by_name = {s.name: s for s in mod.SUBCHECKS}
+    for path in sorted(glob.glob(os.path.join(VERIF, "replays", "regress", check_id, "*.json"))):
+        data = json.load(open(path))
+        if data["subcheck"] in by_name and (per_sub is None or data["subcheck"] in per_sub):
+            evaluate(by_name[data["subcheck"]], data["case"], Rec())
+    for k in load_known():
+        if k.get("status") == "open" and k.get("property") == check_id:
+            replay_file(mod, os.path.join(VERIF, k["canary"]))
+
+
+def trace_shard(check_id, spec_json, out_path):
+    """(fresh process) re-run one shard exactly as the driver's worker did, recording every evaluated case in order and
+    stopping at the first failure."""
+    global TRACE
+    spec = json.loads(spec_json)
+    mod = _load_check(check_id)
+    TRACE = []
+    _driver_prefix(mod, check_id, spec.get("subs"))
+    r = run_shard(tuple(spec["task"]))
+    json.dump(dict(history=TRACE, failure=r["failure"]), open(out_path, "w"), default=str)
+    return 0
+
+
+def _recover_history(check_id, task, subs, msg):
+    """A failure that does not reproduce from its saved case alone may depend on what verde was asked before (module- or
+    class-level state).  Re-run the shard in a fresh process; if the same failure returns, minimise the sequence of earlier
+    cases (fresh process per trial) and return (history, case, message); otherwise None (the failure is not reproducible)."""
+    import subprocess
+    import tempfile
+
+    tmp = tempfile.mkdtemp(prefix="verif_hist_")
+    script = os.path.join(VERIF, "run_check.py")
+    try:
+        out = os.path.join(tmp, "trace.json")
+        subprocess.run([sys.executable, script, check_id, "--trace-shard", json.dumps(dict(task=list(task), subs=subs)), "--trace-out", out],
+                       stdout=subprocess.DEVNULL, stderr=subprocess.DEVNULL, timeout=1800)
+        if not os.path.exists(out):
+            return None
+        data = json.load(open(out))
+        f = data["failure"]
+        if f is None or f[0] != "violation" or f[1] is None or not data["history"]:
+            return None
+        final = data["history"][-1]
+        history = data["history"][:-1]
+
+        def fails(hist):
+            p = os.path.join(tmp, "trial.json")
+            json.dump(dict(property=check_id, subcheck=final["subcheck"], case=final["case"], history=hist), open(p, "w"))
+            return subprocess.run([sys.executable, script, check_id, "--replay", p], stdout=subprocess.DEVNULL, stderr=subprocess.DEVNULL, timeout=1800).returncode == 1
+
+        if not fails(history):
+            return None
+        # ddmin over the earlier cases, bounded
+        t_end = time.time() + 240
+        n = 2
+        while len(history) >= 1 and time.time() < t_end:
+            size = max(1, len(history) // n)
+            chunks = [history[i:i + size] for i in range(0, len(history), size)]
+            reduced = False
+            for i, chunk in enumerate(chunks):
+                if time.time() > t_end:
+                    break
+                if len(chunks) > 1 and fails(chunk):
+                    history, n, reduced = chunk, 2, True
+                    break
+                rest = [h for j, c in enumerate(chunks) if j != i for h in c]
+                if rest != history and fails(rest):
+                    history, n, reduced = rest, max(n - 1, 2), True
+                    break
+            if not reduced:
+                if size == 1:
+                    break
+                n = min(len(history), n * 2)
+        return history, final, f[2]
+    finally:
+        import shutil
+
+        shutil.rmtree(tmp, ignore_errors=True)
 
 
 def main(check_id, tier, replay=None, only=None):
@@ -435,7 +530,8 @@ def main(check_id, tier, replay=None, only=None):
         nproc = min(MAX_WORKERS, len(tasks))
         if nproc > 1:
             ctx = multiprocessing.get_context("fork")
-            with ctx.Pool(nproc) as pool:
+            # one fresh fork of the driver per shard: a shard's process history is the driver's plain replays plus its own cases
+            with ctx.Pool(nproc, maxtasksperchild=1) as pool:
                 results = list(pool.imap_unordered(run_shard, tasks, chunksize=1))
         else:
             results = [run_shard(t) for t in tasks]
@@ -466,11 +562,18 @@ def main(check_id, tier, replay=None, only=None):
         # confirm outside Hypothesis: a failure that does not reproduce from
         # its saved input is a harness problem, not a violation
         again = evaluate(by_name[r["sub"]], case)
+        history = None
         if again is None or again[0] != "violation":
-            harness_errors.append("%s[%d]: failure did not reproduce from the saved case: %s" % (r["sub"], r["shard"], msg))
-            continue
+            task = [t for t in tasks if t[1] == r["sub"] and t[2] == r["shard"]][0]
+            rec_h = None if by_name[r["sub"]].custom is not None else _recover_history(check_id, task, sorted(per_sub), msg)
+            if rec_h is None:
+                harness_errors.append("%s[%d]: failure did not reproduce from the saved case: %s" % (r["sub"], r["shard"], msg))
+                continue
+            history, final, msg = rec_h
+            case = final["case"]
+            msg = "%s  [needs %d earlier call(s) in the same process: the replay file lists them]" % (msg, len(history))
         bucket = (r["sub"], msg.split(":")[0][:24])
-        path = _write_replay(check_id, r["sub"], case, msg, r["seed"], kind)
+        path = _write_replay(check_id, r["sub"], case, msg, r["seed"], kind, history)
         if bucket in seen_buckets:
             continue
         seen_buckets.add(bucket)
